@@ -4106,6 +4106,29 @@ def _replace_common_or_components(expr, or_components):
     return outer_component & or_component
 
 
+def _depends_on_other_rows(e):
+    from dask.dataframe.dask_expr._cumulative import (
+        CumulativeAggregations,
+        CumulativeBlockwise,
+        CumulativeFinalize,
+    )
+    from dask.dataframe.dask_expr._rolling import RollingAggregation, RollingReduction
+
+    return isinstance(
+        e,
+        (
+            MapOverlap,
+            MapOverlapAlign,
+            CreateOverlappingPartitions,
+            CumulativeAggregations,
+            CumulativeBlockwise,
+            CumulativeFinalize,
+            RollingReduction,
+            RollingAggregation,
+        ),
+    )
+
+
 def _check_dependents_are_predicates(
     expr, other_names, parent: Expr, dependents, allow_reduction=True
 ):
@@ -4137,6 +4160,10 @@ def _check_dependents_are_predicates(
 
         if not allow_reduction:
             if isinstance(e, (ApplyConcatApply, TreeReduce, ShuffleReduce)):
+                return False
+            if _depends_on_other_rows(e):
+                # cumsum, shift, diff, rolling, ... of the filtered frame are not
+                # the same on the unfiltered frame
                 return False
 
         allowed_expressions.add(e._name)
